@@ -2,22 +2,36 @@
 The vocabulary of the panic-site audit (Props/PanicCensusAdd.lean, PanicCensusRender.lean,
 PanicCensusBuiltins.lean; helper lemmas in Lemmas/PanicCensus.lean).  Import-free.
 
-`translator/tables/panic_census.py` lists, from the CURRENT source of /repo, every syntactic panic
-site of the engine outside tests: `.expect("…")`, `.unwrap()`, `unreachable!` / `panic!` / `assert!` …,
-index and slice expressions `x[…]`, calls of std methods that panic on a bad argument
-(`windows`, `split_at`, …) and `unsafe` blocks, grouped as
+`translator/tables/panic_census.py` lists, from the CURRENT source of /repo (comments removed), every
+syntactic panic site of the engine outside tests, grouped as
 
     (file, enclosing fn, kind, normalised text, number of occurrences in that fn)
 
+with the kinds
+* `unwrap` — every `.unwrap()` AND every `.expect(…)`; the text is the RECEIVER (the method chain
+  the call is applied to, whitespace removed: `state.chunk`, `self.values.pop()`); the `expect`
+  message is not part of the key, so unwrap ↔ expect and rewording a message change nothing;
+* `macro` — `unreachable!` / `panic!` / `assert!` / `todo!` …, text = the macro with its arguments;
+* `index` — index and slice expressions, text = `receiver[index]`;
+* `method` — calls of std methods that panic on a bad argument (`windows`, `split_at`, …);
+* `unsafe_block` — the text is the block without the keyword.
+
 An ACCOUNT is a hand-written list of rows `(entry, Account)`: for every census entry, what the
-verification knows about it.  `covers census account` holds when every census entry has account
-rows with the same (file, fn, kind, text) whose counts add up to at least the census count.  So
-* REMOVING a site, or moving code (no line numbers anywhere), keeps the theorem;
-* ADDING a site the account does not know — a new text, a new kind of site in a function, one more
-  occurrence of a known text in the same function — makes `covers … = true` false, and the
-  `decide` proof of the census theorems fails to build.
-The converse (no stale rows) is deliberately NOT a theorem of the Props files: it would raise an
-alarm on harmless removals.
+verification knows about it.
+
+THE KEY of the census theorems is (file, kind, text): `coversF census account` holds when, for every
+key, the census counts — summed over all functions of the file — at most as many occurrences as the
+account has rows for (row counts of equal keys add up).  The fn field of a row is informative: it
+says where the site is today.  So
+* REMOVING a site, moving code within a file (no line numbers anywhere; extracting or inlining a
+  helper), editing comments, reformatting, turning an `unwrap` into an `expect("reason")` or back,
+  rewording a message — all keep the theorem;
+* ADDING a site the account does not know — a new text (for `unwrap`: a new receiver), a new kind of
+  site in a file, one more occurrence of a known text in the file — makes `coversF … = true` false,
+  and the `decide` proof of the census theorems fails to build.
+`covers` is the stricter per-function form (key (file, fn, kind, text)); only the hygiene lemmas of
+Lemmas/PanicCensus.lean use it.  The converse (no stale rows) is deliberately NOT a theorem of the
+Props files: it would raise an alarm on harmless removals.
 
 No theorem here says a site cannot fire: the account NAMES the model outcome and the theorem that
 excludes it (or the guard in the Rust).  What the census theorems prove is the bookkeeping: no
